@@ -125,6 +125,22 @@ CHECKS['C13'] = dict(
          'known finding (F10c) sits in its own clause.',
     technique='sidecar contracts + own VC generator over the real AST + z3 against an independent rule spec; native replay of counter-models')
 
+CHECKS['C02'] = dict(
+    category='proof',
+    text='State.pots: for every player still in the hand the pots he contends for total exactly sum_i min(c_i, p_j) + the ante layer (what '
+         'he can win from each opponent is what he himself put in, no more and no less), contenders are live, the pots total what was '
+         'wagered. State._begin_chips_pushing: each pot is divided evenly between the boards and each share evenly between the hand types in '
+         'play for THAT pot on that board, odd chips to the first; a lone survivor gets every pot whole. State.push_chips: the sub-pot is paid '
+         'to the holder(s) of the strongest hand among the pot\'s contenders, equal shares, odd chips to the earliest position, nobody else '
+         'receives anything, no stack moves. All three are executed symbolically with every amount symbolic and hands as abstract optional '
+         'strengths (so every deal of cards is covered) and compared with spec/pots.py written from the statement. A structural frame scan '
+         'shows statuses are only ever set to False: nobody who folded, mucked or was killed comes back.',
+    design_ref='DESIGN.md section 4 (C02), section 8',
+    note='D/shape: pots n in {2,3,4} (thorough 5); pushing (n, hand types) in {(2,2),(3,1)} quick, more in thorough; hands abstract (C04/C05 '
+         'contracts); assumes every frozen pot has a contender (F6 family is C01/C07 matter) and that a live player with less in the pot than '
+         'somebody else has nothing in front of him (betting invariant).',
+    technique='sidecar contracts + own VC generator over the real AST + z3 against an independent rule spec; abstract hands; AST frame scan')
+
 NOT_APPLICABLE = {
     'C20': 'regex-driven text importers against external site formats; no contract within reach expresses or decides it (DESIGN.md section 5)',
 }
